@@ -52,11 +52,11 @@ func (*AsExpressionNode) IsStatic() bool {
 }
 
 func (*AsExpressionNode) Class() *value.Class {
-	return value.PublicIdentifierNodeClass
+	return value.AsExpressionNodeClass
 }
 
 func (*AsExpressionNode) DirectClass() *value.Class {
-	return value.PublicIdentifierNodeClass
+	return value.AsExpressionNodeClass
 }
 
 func (n *AsExpressionNode) Equal(other value.Value) bool {
